@@ -15,6 +15,25 @@ pub fn set_hook(hook: Option<Hook>) {
     HOOK.with(|h| *h.borrow_mut() = hook);
 }
 
+/// Cooperative wait: yields (label) until `cond` holds. Placed in front of a blocking lock
+/// acquisition so that a scheduler that runs one thread at a time never blocks inside the lock.
+pub fn wait_until(label: &'static str, cond: impl Fn() -> bool) {
+    let hooked = HOOK
+        .try_with(|h| h.try_borrow().map(|g| g.is_some()).unwrap_or(false))
+        .unwrap_or(false);
+    if !hooked {
+        return;
+    }
+    while !cond() {
+        yield_point(label);
+    }
+}
+
+/// `true` unless the version-history write lock is currently unavailable
+pub fn can_write<T>(lock: &std::sync::RwLock<T>) -> bool {
+    !matches!(lock.try_write(), Err(std::sync::TryLockError::WouldBlock))
+}
+
 /// Called at the boundaries of the tree's critical sections; never while an inner lock is held.
 pub fn yield_point(label: &'static str) {
     let _ = HOOK.try_with(|h| {
